@@ -32,6 +32,17 @@ def from_ranges_batch(cid, typ, lists):
     return c, marks
 
 
+def filtered_batch(cid, typ, lists):
+    """from_ranges fed through Iterator::filter: same items, but size_hint() has lower bound 0 and no exact length."""
+    c = Case(cid, typ, meta={'filtered': True})
+    marks = []
+    for lst in lists:
+        a = c.op('HRF', 0, lst)
+        b = c.op('O', 0)
+        marks.append((a, b, lst))
+    return c, marks
+
+
 def unbounded_batch(cid, typ, lists):
     """from_ranges fed by an unbounded iterator (the list followed by +inf forever): must return, must not read more than
     LEN+2 items, and must give the verdict of the list's first LEN+1 items (the +inf tail only matters for short lists)."""
@@ -116,6 +127,14 @@ def shard_lists(desc):
             k += 1
             cases.append(c)
             plan.append((c, typ, L, marks))
+        # a tenth of the lists again through a filter iterator (inexact size_hint)
+        fl = lists[5::10]
+        for i in range(0, len(fl), 200):
+            c, marks = filtered_batch('%s-f%d' % (desc['name'], k), typ, fl[i:i + 200])
+            k += 1
+            cases.append(c)
+            plan.append((c, typ, L, marks))
+            res.count('filtered_iterator_calls', len(marks))
         # a tenth of the lists again, as the head of an unbounded iterator
         ul = lists[::10]
         for i in range(0, len(ul), 200):
@@ -164,7 +183,7 @@ def random_lists(rng, L, n):
 def const_width_pairs(rng, n):
     out = []
     for _ in range(n):
-        kind = rng.choice(['random', 'random', 'adjacent', 'few_ulps', 'few_ulps', 'symmetric', 'integers', 'tiny_width', 'wide'])
+        kind = rng.choice(['random', 'random', 'adjacent', 'few_ulps', 'few_ulps', 'symmetric', 'integers', 'tiny_width', 'wide', 'near_grid'])
         mag = 10.0 ** rng.uniform(-15, 15)
         if kind == 'random':
             a = rng.choice([-1, 1]) * mag * rng.uniform(0.1, 1)
@@ -186,6 +205,12 @@ def const_width_pairs(rng, n):
         elif kind == 'integers':
             a = float(rng.randint(-1000, 1000))
             b = a + float(rng.randint(1, 1000))
+        elif kind == 'near_grid':
+            # start < 0 < end with -start/step within 1e-13 of a whole number without being one: an inner edge is almost 0
+            L_ = rng.choice([3, 4, 10, 100])
+            k_ = rng.randint(1, L_ - 1)
+            b = mag
+            a = -b * k_ / (L_ - k_) * (1 + rng.choice([-1, 1]) * 10.0 ** rng.uniform(-15, -12))
         elif kind == 'tiny_width':
             a = rng.choice([-1, 1]) * mag
             b = a + abs(a) * 10.0 ** rng.uniform(-15, -10)
@@ -271,10 +296,10 @@ def run(tier, seed):
     rng = random.Random(seed)
     if tier == 'quick':
         exh = {1: 4, 2: 5, 3: 5}      # LEN -> max list length enumerated
-        nrand, nwidth, variants = 1500, 3000, [('release', 1.0), ('dev', 0.5), ('nightly', 0.5), ('plain', 0.3)]
+        nrand, nwidth, variants = 1500, 3000, [('release', 1.0), ('dev', 0.5), ('nightly', 0.5), ('plain', 0.3), ('bare', 0.3)]
     else:
         exh = {1: 4, 2: 5, 3: 6, 4: 7}
-        nrand, nwidth, variants = 60000, 200000, [('release', 1.0), ('dev', 0.3), ('nightly', 0.3), ('plain', 0.2)]
+        nrand, nwidth, variants = 60000, 200000, [('release', 1.0), ('dev', 0.3), ('nightly', 0.3), ('plain', 0.2), ('bare', 0.2)]
     try:
         for variant, frac in variants:
             binary = build(variant)
@@ -302,7 +327,7 @@ def run(tier, seed):
     except common.Inconclusive as e:
         total.inconclusive.append(str(e))
     need = {'expected_ok': 1000, 'expected_NaN': 1000, 'expected_NotSorted': 1000, 'expected_NotEnoughRanges': 500,
-            'const_width_calls': 1000, 'unbounded_input_calls': 1000}
+            'const_width_calls': 1000, 'unbounded_input_calls': 1000, 'filtered_iterator_calls': 1000}
     return common.finish(PROP, tier, seed, total, RULE, t0, ASSUME, min_events=need, exhaustive=True,
                          extra={'builds': [v for v, _ in variants], 'exhaustive_lengths': {str(k): v for k, v in exh.items()}})
 
@@ -314,7 +339,7 @@ def rejudge(case, recs, res, variant, v):
     marks, wmarks = [], []
     for i, o in enumerate(case.ops):
         t = o.split()
-        if t[0] in ('HR', 'HRI'):
+        if t[0] in ('HR', 'HRI', 'HRF'):
             marks.append((i, i + 1, [h2f(x) for x in t[2:]]))
         elif t[0] == 'HW':
             wmarks.append((i + 1, h2f(t[2]), h2f(t[3])))
